@@ -46,16 +46,26 @@ EXTRA = {
         "how openpyxl applies a Font/PatternFill/Alignment object to a cell is outside the model: the style layer "
         "of the model records only *which* cells are handed to _style_cells; that styling leaves values alone is "
         "checked on the saved files (value grid with vs without styles)",
-        "sheet names are legal for openpyxl and distinct ignoring case (create_sheet renames otherwise); "
-        "text is XML-legal without characters below U+0020; na_rep is the default '-'",
+        "sheet names are legal for openpyxl and distinct ignoring case (Grid.sheetNamesOK, a hypothesis of "
+        "excel_roundtrip; outside it create_sheet raises ValueError or renames — negative cases run each time); "
+        "text is free of C0 controls other than tab and line feed (a carriage return comes back as a line feed: "
+        "negative case); timestamps are whole seconds from 1900-01-01; na_rep is the default '-'",
+        "HARNESS-ONLY: 'writing to a path versus a binary stream' has no Lean theorem (the model has no notion of a "
+        "target): every case is written to both kinds of target and the saved value grids are compared cell by cell; "
+        "the read-back oracle runs on the target drawn for the case",
+        "HARNESS-ONLY / PIN: that a styled cell keeps its value is not a content of style_touches_no_value (in the "
+        "model the value grid has no field a style could touch); it rests on the translator pin style_writes_pinned "
+        "(the loop assigns font / fill / alignment, nothing assigns .value) and on the comparison of the saved value "
+        "grids with and without styles on every styled case",
         "sheet_name_pattern is an arbitrary predicate on sheet names in the model; the harness passes the set of "
         "names the compiled pattern matches with re.match",
         "xlsxwriter backend is not installed and not covered",
     ],
     "explanation": "Props/C09.lean: excel_roundtrip (layout -> store -> split -> makeTable gives back every table, "
-                   "sheet order then table order, origin sheet), sep_lines_irrelevant, style_touches_no_value "
-                   "(styleTargets never raises and stays inside its own table's rows and the sheet width, for every "
-                   "table shape), pattern_selects; written_cells_representable keeps the layout inside the domain of "
+                   "sheet order then table order, origin sheet; hypothesis sheetNamesOK), sep_lines_irrelevant, "
+                   "style_touches_no_value (what is proved: styleTargets never raises and stays inside its own "
+                   "table's rows and the sheet width, for every table shape; value preservation = pin + harness grid "
+                   "diff), pattern_selects; written_cells_representable keeps the layout inside the domain of "
                    "the openpyxl law.",
     "trusted_base": [
         "openpyxl 3.1.5 storage law Grid.store (sampled each run against the real library)",
@@ -66,12 +76,12 @@ KEY_STYLE_INDEX = "styles-indexerror-last-rowwise-zero-columns"
 
 # --------------------------------------------------------------------------- generator (spec level)
 
-TEXT_ALPHA = list("abcxyzABZ019 _-.,;:*#%/()é µΩ中") + ["ß", "ø", "'", '"', "&", "<", ">"]
+TEXT_ALPHA = list("abcxyzABZ019 _-.,;:*#%/()é µΩ中") + ["ß", "ø", "'", '"', "&", "<", ">", "\t", "\n"]
 NAME_ALPHA = list("abcdxyT01_- é")
 UNITS_NUM = ["-", "m", "kg", "mm", "°C", "m/s", "1/s", "%", "N m", "Text", "ONOFF", "µm"]
 SHEET_NAMES = ["Sheet1", "data", "in put", "Tab_2", "résumé", "A", "x1", "sheet one", "Ωmega", "out", "in", "input_2",
                "123", "a.b", "tab-3"]
-TEXT_FIXED = ["-", "nan", "None", "1.5", "12", "k:", "**x", ":a", " u ", "x" * 40, "TRUE", "2020-01-02", "a=b", "é µ",
+TEXT_FIXED = ["a\nb", "a\tb", " lead\n", "x\n\ny", "-", "nan", "None", "1.5", "12", "k:", "**x", ":a", " u ", "x" * 40, "TRUE", "2020-01-02", "a=b", "é µ",
               "#N/A", "  lead", "trail  ", "0", "*", "a:b"]
 FLOATS_FIXED = [0.0, -0.0, 1.0, 2.0, -3.0, 2.5, 0.1, 1e20, 1e15, 1e16, -1e-7, 123456.789, 3.14159265358979,
                 1e-300, 1e300, 999999999999999.0, 0.001, 100.0, float("nan")]
@@ -93,8 +103,25 @@ def is_space(c):
 
 
 def text_ok(s):
-    return bool(s) and not s.startswith("=") and all(ord(c) >= 32 and ord(c) not in (0xFFFE, 0xFFFF) for c in s) \
-        and not all(is_space(c) for c in s)
+    return bool(s) and not s.startswith("=") and all(char_ok(c) for c in s) and not all(is_space(c) for c in s)
+
+
+def char_ok(c):
+    """what openpyxl gives back unchanged: U+0020 and above, tab, line feed (a carriage return comes back as \\n)"""
+    return (ord(c) >= 32 or c in "\t\n") and ord(c) not in (0xFFFE, 0xFFFF)
+
+
+def sheet_key(n):
+    return "".join(c.lower() if ord(c) < 128 else "?" for c in n)
+
+
+def sheet_names_ok(names):
+    """legal for openpyxl and distinct ignoring case (non-ASCII characters all identified: conservative)"""
+    for n in names:
+        if not n or len(n) > 31 or any(ord(c) < 32 or ord(c) in (0xFFFE, 0xFFFF) or c in "\\/?*[]:" for c in n):
+            return False
+    keys = [sheet_key(n) for n in names]
+    return len(set(keys)) == len(keys)
 
 
 def rand_text(rng, first_col=False):
@@ -115,7 +142,7 @@ def rand_name(rng, used, no_marker):
     for _ in range(100):
         s = "".join(rng.choice(NAME_ALPHA) for _ in range(rng.randint(1, 5))).strip()
         if rng.random() < 0.1:
-            s = rng.choice(["a:b", "k:", "*x", "12", "a b c", "ÆØ"])
+            s = rng.choice(["a:b", "k:", "*x", "12", "a b c", "ÆØ", "a\nb", "x\ty"])
         if not text_ok(s) or s != s.strip() or s in used:
             continue
         if no_marker and classify_py(s):
@@ -140,9 +167,13 @@ def rand_dt(rng):
     if rng.random() < 0.2:
         return None
     if rng.random() < 0.15:
-        return rng.choice(["1900-03-01T00:00:00", "1900-03-01T00:00:01", "1999-12-31T23:59:59", "2000-02-29T12:00:00",
+        return rng.choice(["1900-01-01T00:00:00", "1900-01-01T00:00:01", "1900-02-28T23:59:59", "1900-01-31T13:14:15",
+                           "1900-03-01T00:00:00", "1900-03-01T00:00:01", "1999-12-31T23:59:59", "2000-02-29T12:00:00",
                            "2199-12-31T23:59:59", "1970-01-01T00:00:00"])
-    d = datetime.datetime(1900, 3, 1) + datetime.timedelta(seconds=rng.randint(0, 9_400_000_000))
+    if rng.random() < 0.1:
+        d = datetime.datetime(1900, 1, 1) + datetime.timedelta(seconds=rng.randint(0, 59 * 86400 - 1))
+    else:
+        d = datetime.datetime(1900, 1, 1) + datetime.timedelta(seconds=rng.randint(0, 9_400_000_000))
     if rng.random() < 0.3:
         d = d.replace(hour=0, minute=0, second=0)
     return d.isoformat()
@@ -159,7 +190,7 @@ def gen_table(rng, k):
         name = name.strip("*")
     if transposed and not name:
         name = "t%d" % k
-    if name.startswith("=") or not all(ord(c) >= 32 for c in name):
+    if name.startswith("=") or not all(char_ok(c) for c in name):
         name = "t%d" % k
     dests = set()
     for _ in range(rng.choice([1, 1, 1, 2, 3])):
@@ -204,7 +235,10 @@ def gen_sheets(rng):
         for _ in range(rng.choice([0, 1, 1, 2, 2, 3])):
             tabs.append(gen_table(rng, k))
             k += 1
-        sheets.append({"name": s, "tables": tabs})
+        sheet = {"name": s, "tables": tabs}
+        if len(tabs) == 1 and rng.random() < 0.2:
+            sheet["bare"] = True          # passed as {name: Table} instead of {name: [Table]}
+        sheets.append(sheet)
     return sheets
 
 
@@ -297,13 +331,13 @@ def sig15(tok):
 def dt_ok(tok):
     if tok is None or tok == "NaT":
         return True
-    return len(tok) == 19 and "." not in tok and tok[:10] >= "1900-03-01"
+    return len(tok) == 19 and "." not in tok and tok[:10] >= "1900-01-01"
 
 
 def py_wf(spec):
     """DESIGN §3 clauses 1-6 for Excel on a spec (independent of the Lean model)"""
     name = spec["name"]
-    if not all(ord(c) >= 32 and ord(c) not in (0xFFFE, 0xFFFF) for c in name):
+    if not all(char_ok(c) for c in name):
         return False
     if name.startswith("*") or name.endswith("*") or (spec["transposed"] and not name):
         return False
@@ -311,7 +345,7 @@ def py_wf(spec):
     if not ds or len(set(ds)) != len(ds):
         return False
     for d in ds:
-        if not d or any(is_space(c) or c == ":" or ord(c) < 32 or ord(c) in (0xFFFE, 0xFFFF) for c in d) \
+        if not d or any(is_space(c) or c == ":" or not char_ok(c) for c in d) \
                 or d[0] in "*=":
             return False
     cols = spec["columns"]
@@ -384,7 +418,23 @@ NEGATIVE = [
         {"name": "a", "unit": "m", "kind": "num", "values": ["0.12345678901234568"]}]}),
     ("sub-second timestamp", {"name": "t", "destinations": ["all"], "transposed": False, "columns": [
         {"name": "a", "unit": "datetime", "kind": "datetime", "values": ["2020-01-02T03:04:05.000007"]}]}),
+    ("carriage return in text", {"name": "t", "destinations": ["all"], "transposed": False, "columns": [
+        {"name": "a", "unit": "text", "kind": "text", "values": ["a\rb"]}]}),
+    ("timestamp before 1900-01-01", {"name": "t", "destinations": ["all"], "transposed": False, "columns": [
+        {"name": "a", "unit": "datetime", "kind": "datetime", "values": ["1899-12-31T00:00:00"]}]}),
 ]
+# outside the domain of the openpyxl law (rounded / normalised by the file format): no model comparison
+OUT_OF_LAW = ("17 significant digits", "sub-second timestamp", "carriage return in text", "timestamp before 1900-01-01")
+
+_T1 = {"name": "t", "destinations": ["all"], "transposed": False, "columns": [
+    {"name": "a", "unit": "m", "kind": "num", "values": ["1.0"]}]}
+# sheet-name negatives: (what, names, expected real behaviour) — mirrored by `example`s in Props/C09.lean
+NEGATIVE_SHEETS = [
+    ("illegal character in a sheet name", ["a/b"], "ValueError"),
+    ("sheet names equal ignoring case", ["A", "a"], ["A", "a1"]),
+    ("empty sheet name", [""], ["Sheet"]),
+]
+SHEET_NAME_PROBES = [["x" * 31], ["x" * 32], ["é", "ü"], ["Sheet", "SHEET"], ["a:b"], ["a]"], ["ok", "Ok "], ["q?"]]
 
 
 # --------------------------------------------------------------------------- implementation runners
@@ -636,6 +686,8 @@ def run_case(case, out, tmp, model_ok, ops, pend, oracle=True):
     styles = styles_arg(case["styles"])
     sep, pattern, kind = case["sep"], case["pattern"], case["target"]
     real = {s["name"]: [build_table(t) for t in s["tables"]] for s in sheets}
+    arg = {s["name"]: (real[s["name"]][0] if s.get("bare") and len(s["tables"]) == 1 else real[s["name"]])
+           for s in sheets}
     mt = [{"name": s["name"], "tables": [model_table(t) for t in real[s["name"]]]} for s in sheets]
     tag = "c%s" % case.get("index", "r")
     brief = {k: case[k] for k in ("seed", "index", "styles", "sep", "target", "pattern") if k in case}
@@ -643,7 +695,7 @@ def run_case(case, out, tmp, model_ok, ops, pend, oracle=True):
 
     # ---- write (the setting under test) and, if styled, the unstyled twin
     try:
-        data, appended = write_wb(real, styles, sep, kind, tmp, tag)
+        data, appended = write_wb(arg, styles, sep, kind, tmp, tag)
     except Exception as e:  # noqa: BLE001
         last_zero = any(s["tables"] and not s["tables"][-1]["columns"] and not s["tables"][-1]["transposed"]
                         for s in sheets)
@@ -659,7 +711,7 @@ def run_case(case, out, tmp, model_ok, ops, pend, oracle=True):
     grid = value_grid(data)
     if styles:
         try:
-            data0, _ = write_wb(real, False, sep, kind, tmp, tag + "u")
+            data0, _ = write_wb(arg, False, sep, kind, tmp, tag + "u")
             grid0 = value_grid(data0)
         except Exception as e:  # noqa: BLE001
             grid0 = None
@@ -670,10 +722,10 @@ def run_case(case, out, tmp, model_ok, ops, pend, oracle=True):
                      first_grid_diff(grid0, grid), "identical cell values", key="styles_change_values")
 
     # ---- path versus binary stream: the saved cell values are the same
-    if oracle and isinstance(case.get("index"), int) and case["index"] % 4 == 0:
+    if oracle:
         other = "bytes" if kind == "path" else "path"
         try:
-            data2, _ = write_wb(real, styles, sep, other, tmp, tag + "o")
+            data2, _ = write_wb(arg, styles, sep, other, tmp, tag + "o")
             if not grids_equal(value_grid(data2), grid):
                 out.fail("the workbook written to a path differs from the one written to a binary stream", brief,
                          first_grid_diff(value_grid(data2), grid), "identical cell values", key="path_vs_stream")
@@ -849,7 +901,11 @@ def run(tier, seed, model_ok, translator, search=False):
                 out.count("shape:rows=%d" % (len(t["columns"][0]["values"]) if t["columns"] else 0))
                 for c in t["columns"]:
                     out.count("kind:" + c["kind"])
+            if not sheet_names_ok([s["name"] for s in sheets]):
+                out.mismatch("generator produced sheet names outside sheetNamesOK", case, [s["name"] for s in sheets], None)
             for s in sheets:
+                if s.get("bare"):
+                    out.count("sheet passed as a bare Table")
                 out.count("tables_per_sheet:%d" % len(s["tables"]))
                 for t in s["tables"]:
                     if not py_wf(t):
@@ -873,19 +929,41 @@ def run(tier, seed, model_ok, translator, search=False):
                      "sep": 1, "target": "bytes", "pattern": None}
             probe = Outcome()
             # outside the domain of the openpyxl law (rounded by the file format): no model comparison
-            in_law = what not in ("17 significant digits", "sub-second timestamp")
+            in_law = what not in OUT_OF_LAW
             try:
                 run_case(ncase, probe, tmp, model_ok and in_law, ops, pend, oracle=True)
             except Exception as e:  # noqa: BLE001 — e.g. openpyxl refusing a value: the table is lost as well
                 probe.failures.append({"what": type(e).__name__})
             lost += 1 if probe.failures else 0
             out.evaluations += 1
+        # sheet names outside `sheetNamesOK`: what the real code does with them
+        name_lists = [[s["name"] for s in c["sheets"]] for w, c, _i in pend if w == "write_read"][:60]
+        for what, names, expect in NEGATIVE_SHEETS:
+            name_lists.append(names)
+            if sheet_names_ok(names):
+                out.mismatch("negative sheet-name example accepted by the python predicate", what, True, False)
+            tabs = {n: [build_table(_T1)] for n in names}
+            try:
+                data, _ = write_wb(tabs, False, 1, "bytes", tmp, "negsheet")
+                got = [n for n, _ in value_grid(data)]
+            except Exception as e:  # noqa: BLE001
+                got = type(e).__name__
+            out.evaluations += 1
+            out.count("negative sheet names: " + what + " -> " + (got if isinstance(got, str) else "/".join(got)))
+            if got != expect:
+                out.notes.append(f"sheet-name negative '{what}': openpyxl now answers {got!r}, expected {expect!r}")
+            if got == names:
+                out.notes.append(f"sheet-name negative '{what}' round-trips: the clause may be idle")
+        name_lists += SHEET_NAME_PROBES
         out.count("negative examples (one violated clause each)", len(NEGATIVE))
         out.count("negative examples the real round trip loses or alters", lost)
         if model_ok:
             for ok, spec in wf_specs:
                 ops.append({"op": "grid_wf", "table": model_table(build_table(spec)), "naRep": "-"})
                 pend.append(("wf", {"table": spec}, ok))
+            for names in name_lists:
+                ops.append({"op": "grid_sheet_names", "names": names})
+                pend.append(("sheet_names", {"names": names}, sheet_names_ok(names)))
             answers = common.run_model(ops)
             for (what, case, impl), ans in zip(pend, answers):
                 if what == "wf":
@@ -893,6 +971,9 @@ def run(tier, seed, model_ok, translator, search=False):
                         out.mismatch("driver error (wf)", case, impl, ans)
                     elif ans["wf"] != impl or not ans["naRepOK"] or (impl and not ans["representable"]):
                         out.mismatch("well-formedness predicate: python vs Grid.excelWF / cellRepresentable", case, impl, ans)
+                elif what == "sheet_names":
+                    if isinstance(ans, dict) and "error" in ans or ans.get("ok") != impl:
+                        out.mismatch("sheet-name predicate: python vs Grid.sheetNamesOK", case, impl, ans)
                 else:
                     judge(what, case, impl, ans, out)
     finally:
